@@ -136,5 +136,13 @@ func allProps() []PropSpec {
 			},
 			Assumptions: []string{"responses are produced by a handler inside the real Serve loop over the real standard.Conn and decoded by the strict reader in harness/pkg/protocol/http1/serve.go (not net/http)", "documented exclusion honoured: hijacked chunked writer on a response that may not have a body", "body sizes <= 3 bytes: the 4 KiB / MaxSmallFileSize flush thresholds are not exercised", "Date and Server headers disabled"},
 		},
+		{
+			ID: "C13",
+			Harnesses: []HarnessSpec{
+				{Func: "ZZ_C13_H1", Pkg: "pkg/network/standard", Quick: map[string]int{"K": 2}, Thorough: map[string]int{"K": 3}, Covers: []string{"reached-assert", "crossed-node-boundary"}, Unwind: 30000, MaxSteps: 8000000},
+				{Func: "ZZ_C13_H2", Pkg: "pkg/network/standard", Quick: map[string]int{"K": 3}, Thorough: map[string]int{"K": 4}, Covers: []string{"reached-assert"}, Unwind: 30000, MaxSteps: 8000000},
+			},
+			Assumptions: []string{"operation sequences of length K with sizes base+d, base in {1,1024,4096,8192}, d in [-1,1]; input fragmented as whole / 1000 / 4096 / 5000-byte reads", "mcache and sync.Pool are modelled as LIFO free lists that re-issue freed blocks (so use-after-release is observable)", "TLS conn, ReadFrom, the 512 KiB malloc limit and EOF/error paths are outside"},
+		},
 	}
 }
